@@ -133,7 +133,7 @@ Step(s, e, ln) ==
                       \cup {<<e.case, ln, id, "panic in free-running stress">> :
                                id \in IF e.panics > 0 THEN Enforce \cap {"C20", "C10"} ELSE {}}
                       \cup {<<e.case, ln, id, "flush returned Ok with private bytes / write accepted nothing (stress)">> :
-                               id \in IF e.flush_private > 0 \/ e.write_zero > 0 THEN Enforce \cap {"C08"} ELSE {}}
+                               id \in IF e.flush_private > 0 \/ e.write_zero > 0 THEN Enforce \cap {"C08", "C09"} ELSE {}}
                       \cup {<<e.case, ln, id, "write/flush succeeded after the body was dropped, or queue kept (stress)">> :
                                id \in IF e.ok_after_drop > 0 THEN Enforce \cap {"C11"} ELSE {}}
                       \cup {<<e.case, ln, id, "is_end_stream() true, then data or an error (stress)">> :
